@@ -448,3 +448,77 @@ Lemma pipe_rows_sorted ci legs qconj : ci <> [] -> Sorted rle (pipe_rows ci legs
 Proof.
   intros H. unfold pipe_rows. destruct ci as [|m ci]; [congruence|]. cbn [length Nat.eqb negb andb]. apply rsort_sorted.
 Qed.
+
+(* ---------------------------------------------------------------- layout of q_map *)
+Lemma offs_app_l a : forall b j, (j <= length a)%nat -> offs (a ++ b) j = offs a j.
+Proof.
+  induction a as [|x a IH]; intros b j Hj; cbn [length] in Hj.
+  - assert (j = 0%nat) by lia. subst j. cbn [app]. destruct b; reflexivity.
+  - destruct j as [|j]; [reflexivity|]. cbn [app]. rewrite !offs_cons. rewrite IH by lia. reflexivity.
+Qed.
+
+Lemma offs_app_r a : forall b j, (length a <= j)%nat -> offs (a ++ b) j = sumZ a + offs b (j - length a).
+Proof.
+  induction a as [|x a IH]; intros b j Hj; cbn [length] in Hj.
+  - cbn [app sumZ length]. rewrite Nat.sub_0_r. lia.
+  - destruct j as [|j]; [lia|]. cbn [app length sumZ]. rewrite offs_cons, IH by lia. cbn [Nat.sub]. lia.
+Qed.
+
+Lemma tag_slices gs : Forall (fun g => nonneg (map r_sz g)) gs -> forall I0 j, (j < length (concat gs))%nat ->
+  let I := nth j (tag_from I0 gs) 0%nat in
+  offs (map gsize gs) (I - I0) <= offs (map r_sz (concat gs)) j /\
+  offs (map r_sz (concat gs)) (S j) <= offs (map gsize gs) (S (I - I0)).
+Proof.
+  induction 1 as [|g gs Hg Hgs IH]; intros I0 j Hj; [cbn in Hj; lia|].
+  cbn [concat tag_from map] in *. rewrite app_length in Hj. rewrite map_app.
+  destruct (Nat.lt_ge_cases j (length g)) as [H|H].
+  - rewrite app_nth1 by (rewrite repeat_length; exact H).
+    assert (E : nth j (repeat I0 (length g)) 0%nat = I0).
+    { eapply repeat_spec. apply nth_In. rewrite repeat_length. exact H. }
+    cbv zeta. rewrite E, Nat.sub_diag.
+    rewrite !offs_app_l by (rewrite map_length; lia).
+    split; [cbn [offs]; apply offs_nonneg, Hg|].
+    rewrite offs_cons. cbn [offs]. unfold gsize.
+    pose proof (offs_le_sum _ Hg (S j)). destruct gs; cbn [map offs]; lia.
+  - rewrite app_nth2 by (rewrite repeat_length; exact H). rewrite repeat_length.
+    destruct (IH (S I0) (j - length g)%nat ltac:(lia)) as [H1 H2]. cbv zeta in *.
+    set (I := nth (j - length g) (tag_from (S I0) gs) 0%nat) in *.
+    assert (HI : (S I0 <= I)%nat).
+    { destruct (tag_spec gs (S I0) (j - length g)%nat ltac:(lia)) as [X _]. exact X. }
+    rewrite !offs_app_r by (rewrite map_length; lia). rewrite map_length.
+    replace (I - I0)%nat with (S (I - S I0)) by lia. rewrite !offs_cons.
+    replace (S j - length g)%nat with (S (j - length g)) by lia. unfold gsize at 1 3. lia.
+Qed.
+
+Lemma group_nonneg bun rows : nonneg (map r_sz rows) -> Forall (fun g => nonneg (map r_sz g)) (group_rows bun rows).
+Proof.
+  intros H. apply Forall_forall. intros g Hg. apply Forall_forall. intros s Hs.
+  apply in_map_iff in Hs. destruct Hs as (r & <- & Hr).
+  unfold nonneg in H. rewrite Forall_forall in H. apply H. apply in_map.
+  rewrite <- (group_concat bun rows). apply in_concat. exists g. auto.
+Qed.
+
+(* every q_map row [b_j, b_{j+1}, I_s, i_1..i_n]: the slice has the size of the incoming block tuple and lies
+   inside the outgoing block I_s *)
+Theorem qmap_shape ci legs qconj srt bun j : legs_ok legs ->
+  let p := pipe_init ci legs qconj srt bun in
+  (j < length (p_rows p))%nat ->
+  let qr := nth j (p_qmap p) (mkQ 0 0 O []) in
+  let osz := map fst (p_blocks p) in
+  0 <= q_b0 qr /\ q_b1 qr = q_b0 qr + r_sz (nth j (p_rows p) row0) /\
+  offs osz (q_Is qr) + q_b1 qr <= offs osz (S (q_Is qr)) /\ q_q qr = r_q (nth j (p_rows p) row0) /\
+  length (p_qmap p) = length (p_rows p).
+Proof.
+  intros Hl p Hj. unfold p in *. unfold pipe_init in *. cbn [p_rows p_qmap p_blocks] in *.
+  set (rows := pipe_rows ci legs qconj srt) in *. set (gs := group_rows bun rows).
+  cbv zeta. rewrite nth_map_seq by exact Hj. cbn [q_b0 q_b1 q_Is q_q].
+  rewrite map_fst_combine' by (rewrite !map_length; reflexivity).
+  pose proof (rows_sizes_nonneg ci legs qconj srt Hl) as Hnn. fold rows in Hnn.
+  pose proof (group_concat bun rows) as C. fold gs in C.
+  pose proof (tag_slices gs (group_nonneg bun rows Hnn) 0%nat j ltac:(rewrite C; exact Hj)) as T.
+  cbv zeta in T. rewrite Nat.sub_0_r, C in T. destruct T as [T1 T2].
+  assert (Hj' : (j < length (map r_sz rows))%nat) by (rewrite map_length; exact Hj).
+  assert (N : nth j (map r_sz rows) 0 = r_sz (nth j rows row0)) by (change 0 with (r_sz row0); apply map_nth).
+  rewrite (offs_step _ j Hj') in *. rewrite N in *.
+  repeat split; try lia. rewrite map_length, seq_length. reflexivity.
+Qed.
